@@ -19,6 +19,7 @@ type Str struct {
 	atom  *Term
 	bytes []*Term
 	isB   bool
+	built bool // an opaque stand-in for a string BUILT from arbitrary names (strings.Join / concatenation of atoms): fine as text, not comparable
 }
 
 func (s Str) isConc() bool { return s.atom == nil && !s.isB }
